@@ -22,6 +22,7 @@ func zzUL() []zzTxDef {
 }
 
 type zzLeaseWorld struct {
+	forcedEv []int // event codes of a fixed preamble
 	*zzWorld
 	sec  int64
 	nsec int64
@@ -81,7 +82,13 @@ func (w *zzLeaseWorld) leasedNow(op wire.OutPoint) (int, bool) {
 
 func (w *zzLeaseWorld) stepLease() bool {
 	l := w.l
-	c := verifrt.Choice(17, "lease-event")
+	var c int
+	forced := len(w.forcedEv) > 0
+	if forced {
+		c, w.forcedEv = w.forcedEv[0], w.forcedEv[1:]
+	} else {
+		c = verifrt.Choice(17, "lease-event")
+	}
 	switch {
 	case c == 0: // see A
 		if !l.canSeeUnmined(0) {
@@ -137,7 +144,12 @@ func (w *zzLeaseWorld) stepLease() bool {
 	case c >= 6 && c < 10: // lock(op, id) with a chosen duration
 		k, id := (c-6)/2, (c-6)%2+1
 		op := w.op(k)
-		d := zzDurations[verifrt.Choice(len(zzDurations), "duration")]
+		var d time.Duration
+		if forced {
+			d = zzDurations[len(zzDurations)-1] // the longest (10 min)
+		} else {
+			d = zzDurations[verifrt.Choice(len(zzDurations), "duration")]
+		}
 		verifrt.Note("lock " + string(rune('A'+k)) + ":0 id" + string(rune('0'+id)) + " for " + d.String())
 		var exp time.Time
 		var err error
@@ -260,8 +272,13 @@ func (w *zzLeaseWorld) checkLeases(label string) {
 	verifrt.Assert(len(locked) == n, label+"-listed-count")
 }
 
-func zzC12(steps int, preMined bool) {
+func zzC12(steps int, preMined bool) { zzC12P(nil, steps, preMined) }
+
+// zzC12P: the first events are fixed (event codes of stepLease).
+func zzC12P(pre []int, steps int, preMined bool) {
 	w := &zzLeaseWorld{zzWorld: zzNewWorld(zzUL())}
+	w.forcedEv = pre
+	steps += len(pre)
 	w.setClock(true)
 	if preMined {
 		b := zzBlock(zzBaseHeight, 0)
@@ -284,6 +301,10 @@ func zzC12(steps int, preMined bool) {
 }
 
 func ZzC12MinedL2() { zzC12(2, true) }
+
+// A:0 leased to id1 for ten minutes first, then two free events (in
+// particular: an unconfirmed spend of the leased output and its removal).
+func ZzC12LeasedP1L2() { zzC12P([]int{6}, 2, true) }
 func ZzC12MinedL3() { zzC12(3, true) }
 func ZzC12MinedL4() { zzC12(4, true) }
 func ZzC12UnminedL3() { zzC12(3, false) }
